@@ -200,6 +200,12 @@ func (s *Syncer[H]) tailHeight(ctx context.Context, oldTail, head H) (uint64, er
 // estimateTailHeight estimates the tail header based on the current head.
 // It respects the trusting period, ensuring Syncer never initializes off an expired header.
 func (s *Syncer[H]) estimateTailHeight(head H) uint64 {
+	if s.Params.blockTime <= 0 {
+		// block time is not configured, so there is nothing to estimate with:
+		// keep all the headers starting from genesis
+		return 1
+	}
+
 	headersToRetain := uint64(s.Params.trustingPeriod / s.Params.blockTime) //nolint:gosec
 	if headersToRetain >= head.Height() {
 		// means chain is very young so we can keep all headers starting from genesis
@@ -212,6 +218,12 @@ func (s *Syncer[H]) estimateTailHeight(head H) uint64 {
 // findTailHeight find the tail height based on the current head and tail.
 // It respects the pruning window, ensuring Syncer maintains the tail within the window.
 func (s *Syncer[H]) findTailHeight(ctx context.Context, oldTail, head H) (uint64, error) {
+	if s.Params.blockTime <= 0 {
+		// block time is not configured, so there is nothing to estimate with:
+		// keep the current tail
+		return oldTail.Height(), nil
+	}
+
 	window := s.Params.PruningWindow
 	expectedTailTime := head.Time().UTC().Add(-window)
 	currentTailTime := oldTail.Time().UTC()
@@ -226,12 +238,22 @@ func (s *Syncer[H]) findTailHeight(ctx context.Context, oldTail, head H) (uint64
 		// current and expected tails are far from each other
 		// estimate with head for higher accuracy
 		headersToStore := uint64(window / s.Params.blockTime) //nolint:gosec
+		if headersToStore >= head.Height() {
+			// the chain has fewer headers than the window is estimated to hold (e.g. it was halted),
+			// so the subtraction below would wrap around: keep the current tail
+			return oldTail.Height(), nil
+		}
 		estimatedTailHeight = head.Height() - headersToStore
 	case tailTimeDiff < window:
 		// tails are close
 		// estimate with tail for higher accuracy
 		headersToStore := uint64(tailTimeDiff / s.Params.blockTime) //nolint:gosec
 		estimatedTailHeight = oldTail.Height() + headersToStore
+		if estimatedTailHeight > s.store.Height() {
+			// the estimation overshoots the headers we have (e.g. the chain was halted or
+			// produces blocks slower than blockTime), it can't be confirmed: keep the current tail
+			return oldTail.Height(), nil
+		}
 	}
 
 	log.Debugw(
